@@ -170,6 +170,19 @@ func regStd() {
 		st.Fact(Implies(Gt(StrLen(sep), IntLit(0)), quant("forall", "qi", Implies(And(Le(IntLit(0), qi), Lt(qi, ln)), Not(Builtin("str.contains", SBool, sel(arr, qi), sep))))))
 		return one(st, ex.newSymSlice(st, arr, ln, types.Typ[types.String]))
 	})
+	regEnv("(*golang.org/x/oauth2.Config).AuthCodeURL", "oauth2 Config.AuthCodeURL(state): uninterpreted function of (config, state)", func(ex *Executor, st *State, c *callCtx) []callResult {
+		return one(st, App("authcodeurl", SStr, ex.asTerm(st, c.Args[0]), ex.asTerm(st, c.Args[1])))
+	})
+	regEnv("sort.SearchStrings", "sort.SearchStrings(a, x): some index in [0, len(a)] (binary search result not modelled further)", func(ex *Executor, st *State, c *callCtx) []callResult {
+		n := ex.Fresh("searchidx", SInt)
+		st.Fact(And(Ge(n, IntLit(0)), Le(n, ex.lenOf(st, c.Args[0]))))
+		return one(st, n)
+	})
+	regEnv("sort.Strings", "sort.Strings(a): permutes a in place (content not tracked)", func(ex *Executor, st *State, c *callCtx) []callResult {
+		st.Emit("SortInPlace", []Value{c.Args[0]}, nil, ex.pos(c.Pos))
+		return one(st, nil)
+	})
+	regEnv("path/filepath.Base", "filepath.Base: uninterpreted", pure("filepath_base", SStr))
 	regEnv("strconv.Itoa", "strconv.Itoa = str.from_int for n>=0 (uninterpreted otherwise)", func(ex *Executor, st *State, c *callCtx) []callResult {
 		n := ex.asTerm(st, c.Args[0])
 		return one(st, App("itoa", SStr, n))
